@@ -140,6 +140,14 @@ def parse_doc(data, info=None):
         raise Fail('Error: failed to parse xml: %s' % e)
     if doc.doctype is not None and info is not None:
         info.setdefault('external', []).append(('doctype', doc.doctype.name or ''))
+        # libxml2 as xmlsec1 uses it substitutes entities and loads what they point at: a document that declares
+        # entities must never get this far
+        ents = doc.doctype.entities
+        for i in range(ents.length if ents is not None else 0):
+            e = ents.item(i)
+            info['external'].append(('entity-declaration', e.nodeName, e.systemId or ''))
+        if '<!ENTITY' in (doc.doctype.internalSubset or '') and not (ents is not None and ents.length):
+            info['external'].append(('entity-declaration', '%parameter', ''))
     return doc
 
 
